@@ -55,6 +55,15 @@ type Config struct {
 	// term/vote/entries that came with MustSync=false is not itself reported;
 	// the run goes on from the rolled-back disk to show the downstream symptom.
 	LenientSync bool `json:"lenient_sync,omitempty"`
+	// BatchProps: a share of the membership changes is proposed as ONE MsgProp
+	// carrying two conf-change entries (and sometimes a normal entry), stepped into
+	// the leader as a forwarded batch would be.
+	BatchProps bool `json:"batch_props,omitempty"`
+	// LazyPump: the application is slow - after an external stimulus a node may
+	// handle only some of its pending Readys; the rest (for example further pages
+	// of committed entries) is handled at later stimuli, so that ticks, messages and
+	// campaigns meet a node whose applied index lags its commit index.
+	LazyPump bool `json:"lazy_pump,omitempty"`
 }
 
 func pickW(r *core.Rand, vals []int, weights []int) int {
@@ -94,6 +103,8 @@ func genConfig(r *core.Rand, tier string) *Config {
 	c.PhaseMin = 30
 	c.PhaseMax = r.Range(60, 300)
 	c.Liveness = r.Bool(0.5)
+	c.BatchProps = r.Bool(0.4)
+	c.LazyPump = r.Bool(0.4)
 
 	w := &c.W
 	w[evDeliver] = r.Range(20, 40) // plus 3 per in-flight message, see pickKind
